@@ -18,6 +18,10 @@ func outProp(id string) *common.Prop {
 }
 
 var props = []*common.Prop{outProp("C01"), outProp("C04"), outProp("C17"),
+	{ID: "C03", New: func() interface{} { return &LifeCase{} },
+		Gen:    func(r *simrt.Rand, tier string, idx int) interface{} { return genLifeCase(r, tier) },
+		Run:    func(t *testing.T, c interface{}, trace bool) *common.Outcome { return runLife(t, c, trace) },
+		Shrink: shrinkLife},
 	{ID: "C02", New: func() interface{} { return &InCase{} },
 		Gen:    func(r *simrt.Rand, tier string, idx int) interface{} { return genInCase(r, tier) },
 		Run:    func(t *testing.T, c interface{}, trace bool) *common.Outcome { return runIn(t, c, trace) },
